@@ -487,20 +487,7 @@ def _refers_shared(f, base, nm, short):
 def h4(ctx, R):
     prog = ctx.program
     fmod = prog.module("factory")
-    # who-may-read the registry: the three gates and RequireCommand.complete_cb only
-    allowed = {R.lookup.qualname, R.check_next_arg.qualname, R.valid_value.qualname if R.valid_value else "", "RequireCommand.complete_cb"}
-    # a helper of the gates: a function of commands.py that only the gates call
-    grew = True
-    while grew:
-        grew = False
-        for g in R.cmod.all_funcs():
-            if g.qualname in allowed:
-                continue
-            callers = [f for f in prog.all_funcs() for c in walk_no_nested(f.node) if isinstance(c, ast.Call) and call_name(c) == g.name and f is not g]
-            copied = g.qualname in (ctx.normalisation.get("helpers") or {})  # every call site holds a copy of its body
-            if (callers and all(f.qualname in allowed for f in callers)) or (not callers and copied):
-                allowed.add(g.qualname)
-                grew = True
+    allowed = gate_functions(ctx, R)
     # calls made inside `with <scope that suspends the checks>:` (rule E7 of C07) do not consult the registry
     from .c07 import scoped_switches
     switches = scoped_switches(ctx, R)
@@ -699,11 +686,29 @@ def bounded_names(prog, f, call, a0):
     return None
 
 
+def gate_functions(ctx, R):
+    """who-may-read the registry: the three gates, RequireCommand.complete_cb, and the helpers of commands.py that only they call"""
+    prog = ctx.program
+    allowed = {R.lookup.qualname, R.check_next_arg.qualname, R.valid_value.qualname if R.valid_value else "", "RequireCommand.complete_cb"}
+    grew = True
+    while grew:
+        grew = False
+        for g in R.cmod.all_funcs():
+            if g.qualname in allowed:
+                continue
+            callers = [f for f in prog.all_funcs() for c in walk_no_nested(f.node) if isinstance(c, ast.Call) and call_name(c) == g.name and f is not g]
+            copied = g.qualname in (ctx.normalisation.get("helpers") or {})  # every call site holds a copy of its body
+            if (callers and all(f.qualname in allowed for f in callers)) or (not callers and copied):
+                allowed.add(g.qualname)
+                grew = True
+    return allowed
+
+
 def registry_readers(ctx, R, allowed=None):
     """Who reads the process-global extension registry (shared with C11: what a loader returns must come from the parser it was given)."""
     prog = ctx.program
     if allowed is None:
-        allowed = {R.lookup.qualname, R.check_next_arg.qualname, R.valid_value.qualname if R.valid_value else "", "RequireCommand.complete_cb"}
+        allowed = gate_functions(ctx, R)
     nread = 0
     for f in prog.all_funcs():
         for n_ in walk_no_nested(f.node):
